@@ -5,6 +5,7 @@ S = frozenset
 
 POOL2 = ("e", "j")
 POOL3 = ("e", "j", "t")
+POOL_DS = ("e", "ds")  # binders spelled like the query's free name
 POOL_ARG = ("arg_0", "arg_1")  # the simplifier's own fresh-name shape (an already simplified query)
 POOL_ARG3 = ("arg_0", "arg_1", "arg_2")
 
@@ -50,6 +51,12 @@ SLICES = {
                     ops=("Select", "Where")),
                lambda q: T.has(q[1], {"app0"}) and T.count_tag(q[1], "op") >= 2,
                "called parameterless lambdas inside fusable stages"),
+    "hof": (dict(prods=S("attr op hof app bin const".split()), seq_attrs=("jets",), int_attrs=("a", "pt")),
+            lambda q: T.has(q[1], {"hof"}),
+            "a lambda handed to a called lambda and applied through the parameter name"),
+    "sidx": (dict(prods=S("attr op sidx app bin const count".split()), seq_attrs=("jets",), int_attrs=("a",), consts=(0,)),
+             lambda q: T.has(q[1], {"sidx"}),
+             "sequence-valued expressions subscripted by an Int expression (constant, attribute, called-lambda parameter, Count)"),
     "apply": (dict(prods=S("attr op app appkw first meth bin".split())),
               lambda q: T.has(q[1], {"app", "first"}),
               "called lambdas and First push-through with method calls"),
